@@ -310,6 +310,55 @@ theorem mapKeys_abs (es : List Entry) (hn : nodupKeys es = true) : mapKeys es = 
       cases hsome
     simp [this]
 
+/-! ### members by reference: reading back what was written at a path -/
+
+theorem getAt_setAt (x : V) (i : Nat) (vs : List V) (h : i < vs.length) : getAt i (setAt x i vs) = some x := by
+  induction vs generalizing i with
+  | nil => simp at h
+  | cons v vs ih => cases i with
+    | zero => rfl
+    | succ i => simp only [setAt, getAt]; exact ih i (by simpa using h)
+
+theorem child_setChild (v : V) (s : Step) (x r : V) (h : setChild v s x = some r) : child r s = some x := by
+  cases v <;> cases s <;> simp only [setChild] at h <;> try (cases h)
+  case lst.idx vs i =>
+    split at h
+    · rename_i hi; cases h; simp only [child]; exact getAt_setAt x i vs hi
+    · cases h
+  case tbl.key es nk =>
+    cases hf : mapFind es nk with
+    | none => simp [hf] at h
+    | some e =>
+      simp only [hf] at h; cases h
+      simp only [child]
+      rw [mapFind_replace es nk e.2.1 x nk (by simp [hf])]
+      simp
+
+theorem resolve_update (p : List Step) (root x r : V) (h : update root p x = some r) : resolve r p = some x := by
+  induction p generalizing root r with
+  | nil => simp only [update] at h; cases h; rfl
+  | cons s p ih =>
+    simp only [update] at h
+    cases hc : child root s with
+    | none => simp [hc] at h
+    | some c =>
+      simp only [hc] at h
+      cases hu : update c p x with
+      | none => simp [hu] at h
+      | some c' =>
+        simp only [hu] at h
+        simp only [resolve, child_setChild root s c' r h]
+        exact ih c c' hu
+
+/-- the repaired clone-onto: the target ends up equal to the source as it was before the call, whatever their relative
+    position; cloning onto itself changes nothing -/
+theorem cloneOntoRepaired_spec (root : V) (sp dp : List Step) (s r : V) (hs : resolve root sp = some s)
+    (h : cloneOntoRepaired root sp dp = some r) : (sp = dp → r = root) ∧ (sp ≠ dp → resolve r dp = some s) := by
+  unfold cloneOntoRepaired at h
+  constructor
+  · intro he; subst he; simp only [if_true, hs] at h; cases h; rfl
+  · intro hne; simp only [hne, if_false, hs] at h; exact resolve_update dp root s r h
+
 /-! ### structural equality is reflexive (clone is equal to the original) -/
 
 mutual
